@@ -669,12 +669,12 @@ pub fn run(args: &Args) {
     }
 
     // ---- which cases also go to the Coq model ---------------------------------------------------
-    let coq_budget: usize = if args.thorough { 6000 } else { 1300 };
+    let coq_budget: usize = if args.thorough { 6000 } else { 750 };
     // budget split: damaged valid encodings 66 %, enumerated 14 %, random 14 %, long inputs with a lying length 6 %
     let kind_of = |s: &Src| -> usize { let b = match s { Src::Sub { inner, .. } => &**inner, x => x }; match b { Src::Mut { .. } => 0, Src::Enum { .. } => 1, Src::Rand { .. } => 2, _ => 3 } };
     // long inputs go to Coq only for models that run in linear time (the sequence decoders re-measure the
     // remaining slice in every iteration, the PA-Zip model appends to its observation list)
-    let coq_long_ok = |m: u32| matches!(m, 1 | 3 | 10..=26 | 50 | 51 | 52 | 80 | 81 | 90 | 91 | 100 | 103);
+    let coq_long_ok = |m: u32| matches!(m, 1 | 3 | 10..=26 | 50 | 51 | 52 | 80 | 81 | 90 | 91 | 100 | 103 | 82 | 140 | 142);
     let is_long = |s: &Src| matches!(match s { Src::Sub { inner, .. } => &**inner, x => x }, Src::Long { .. });
     let modelled = |s: &Src| s.parser().map(|p| ps[p].model != 0 && (!is_long(s) || coq_long_ok(ps[p].model))).unwrap_or(false);
     let mut kind_total = [0usize; 4];
@@ -739,6 +739,8 @@ pub fn run(args: &Args) {
         if ps[p].env != 0 { env_used.borrow_mut().entry(ps[p].env).or_insert(p); return vec![ps[p].env as u64]; }
         aux_cache.borrow_mut().entry(p).or_insert_with(|| (ps[p].aux)()).clone()
     };
+    // hex_decode(&str): the cell refuses bytes that are not UTF-8 before the parser sees them
+    let aux_for = |p: usize, bytes: &[u8]| -> Vec<u64> { if ps[p].model == 82 { vec![std::str::from_utf8(bytes).is_ok() as u64] } else { aux_of(p) } };
     // ---- oracle verdicts ---------------------------------------------------------------------------
     let mut failed: std::collections::HashSet<(usize, usize)> = Default::default();
     for f in &res.fails {
@@ -752,7 +754,7 @@ pub fn run(args: &Args) {
         cj["observed"] = json!(format!("{}: {}", f.kind, f.msg));
         sum.fail(name, class, cj, &format!("{} returned neither a value nor an error: {} ({}) on a {} input of {} bytes, arg {}", name, f.kind, f.msg, origin, bytes.len(), arg));
         if ps[p].model != 0 && coq_len(&bytes) <= 600 && shards.len() < 2 * coq_budget {
-            let term = coq_case(ps[p].model, arg, &aux_of(p), &bytes, 2, &[]);
+            let term = coq_case(ps[p].model, arg, &aux_for(p, &bytes), &bytes, 2, &[]);
             let mut cj2 = case_json(name, arg, &bytes, origin);
             cj2["impl_obs"] = json!(format!("crash: {}", f.kind));
             shards.push(term, cj2);
@@ -765,7 +767,7 @@ pub fn run(args: &Args) {
         if ps[p].model == 0 || coq_len(&bytes) > 600 || shards.len() >= 2 * coq_budget { continue; }
         // rANS: an expected length the model would have to materialise symbol by symbol
         if (120..=123).contains(&ps[p].model) && arg > (1 << 16) && arg <= 100 * 1024 * 1024 { continue; }
-        let term = coq_case(ps[p].model, arg, &aux_of(p), &bytes, o.code, &o.vals);
+        let term = coq_case(ps[p].model, arg, &aux_for(p, &bytes), &bytes, o.code, &o.vals);
         let mut cj = case_json(ps[p].name, arg, &bytes, origin);
         cj["impl_obs"] = json!({"code": o.code, "vals": o.vals.iter().map(|x| x.to_string()).collect::<Vec<_>>()});
         shards.push(term, cj);
